@@ -11,7 +11,7 @@ import (
 
 // c13: inputs for the escapers. Deterministic enumeration (code points, invalid bytes,
 // boundary pairs) plus seeded random strings.
-var c13Boundary = []rune{48, 57, 65, 70, 71, 97, 102, 103, 32, 9, 10, 13, 12, 34, 38, 39, 60, 62, 92, 37, 43, 59, 35,
+var c13Boundary = []rune{0, 8, 27, 48, 57, 65, 70, 71, 97, 102, 103, 32, 9, 10, 13, 12, 34, 38, 39, 60, 62, 92, 37, 43, 59, 35,
 	117, 120, 123, 125, 45, 46, 95, 126, 127, 128, 159, 160, 255, 256, 2047, 2048,
 	65535, 65536, 128512, 1114111}
 
